@@ -18,6 +18,26 @@ theorem lineScan_append : ∀ (a b : Bytes) (i : Nat) (st : LineSt),
       · split <;> rw [ih, e]
       · rw [ih, e]
 
+theorem lineScan_line_bounds : ∀ (bs : Bytes) (i : Nat) (st : LineSt),
+    st.line ≤ (lineScan bs i st).line ∧ (lineScan bs i st).line ≤ st.line + bs.length := by
+  intro bs
+  induction bs with
+  | nil => intro i st; simp [lineScan]
+  | cons b r ih =>
+    intro i st
+    simp only [lineScan, List.length_cons]
+    split
+    · have := ih (i + 1) ⟨st.line + 1, i + 1, true⟩
+      simp only at this; omega
+    · split
+      · split
+        · have := ih (i + 1) ⟨st.line, i + 1, false⟩
+          simp only at this; omega
+        · have := ih (i + 1) ⟨st.line + 1, i + 1, false⟩
+          simp only at this; omega
+      · have := ih (i + 1) ⟨st.line, st.ls, false⟩
+        simp only at this; omega
+
 /-- line state in front of offset `off` -/
 def stAt (t : Bytes) (off : Nat) : LineSt := lineScan (t.take off) 0 ⟨1, 0, false⟩
 
@@ -645,5 +665,18 @@ theorem parseDoc_good (t : Bytes) : (parseDoc t).Good t (fun _ => True) := by
   refine ((parse_mutual_good t _).1 r.1.pos r.2.1 r2).bind ?_
   intro e _
   trivial
+
+
+/-- a position inside the text has line and column between 1 and length + 1 -/
+theorem Inside.bounds {t : Bytes} {l c : Nat} (h : Inside t l c) :
+    1 ≤ l ∧ l ≤ t.length + 1 ∧ 1 ≤ c ∧ c ≤ t.length + 1 := by
+  obtain ⟨off, hoff, hlc⟩ := h
+  unfold lineCol at hlc
+  simp only [Prod.mk.injEq] at hlc
+  obtain ⟨h1, h2⟩ := hlc
+  have hb := lineScan_line_bounds (t.take off) 0 ⟨1, 0, false⟩
+  simp only [List.length_take] at hb
+  have : min off t.length ≤ t.length := Nat.min_le_right _ _
+  omega
 
 end Nstd.Xml
